@@ -428,7 +428,7 @@ def loop_obligations(rep, tier):
                 eng.globals["types_factory"] = E.VClass("TypesFactory")
                 eng.globals["component_factory"] = E.VClass("TypesFactory")
                 eng.globals["tzp"] = E.VClass("TZP")
-                eng.contracts["TypesFactory.for_property"] = lambda e, s, a, k, cls=cls: [(s, E.VClass(cls))]
+                eng.contracts["TypesFactory.for_property"] = comp.exact_arity(lambda e, s, a, k, cls=cls: [(s, E.VClass(cls))], 2, "types_factory.for_property(name)")
                 calls = []
 
                 def from_ical(engine, s, args, kw):
